@@ -142,6 +142,9 @@ def _full_range_loop(ctx, f, loop, group):
         return True
     if isinstance(it, ast.Call) and getattr(it.func, "id", None) == "enumerate" and it.args and isinstance(it.args[0], ast.Attribute) and it.args[0].attr == want[1]:
         return True
+    if isinstance(it, ast.Call) and getattr(it.func, "id", None) == "enumerate" and it.args and isinstance(it.args[0], ast.Attribute) and it.args[0].attr == "T" \
+            and isinstance(it.args[0].value, ast.Attribute) and it.args[0].value.attr.lstrip("_") in (want[1].lstrip("_") + "_val",):
+        return True      # one iteration per column of the value table = per model
     return False
 
 
@@ -156,6 +159,7 @@ def r121(ctx, rep, rule="R12.1"):
         f = ctx.func(fq)
         cfg = ctx.cfg(f)
         found = {}
+        unclassified = []
         for ev in ctx.events(f):
             if ev.kind != "call" or not any(t.kind == "repo" and t.name == callee for t in ev.targets):
                 continue
@@ -171,10 +175,21 @@ def r121(ctx, rep, rule="R12.1"):
                 recv = call.func.value if isinstance(call.func, ast.Attribute) else None
                 grp = _group_of(ctx, f, recv) if recv is not None else None
             if grp is None:
+                unclassified.append(ev)
                 continue
             found.setdefault(grp, []).append((ev, recv))
+        # calls of a method of that name whose receiver type could not be inferred
+        mname = callee.split(".")[-1]
+        seen_calls = {id(ev.node) for evs_ in found.values() for ev, _ in evs_} | {id(ev.node) for ev in unclassified}
+        if mname != "__init__":
+            for ev in ctx.events(f):
+                if ev.kind == "call" and id(ev.node) not in seen_calls and isinstance(ev.node.func, ast.Attribute) and ev.node.func.attr == mname \
+                        and not any(t.kind == "repo" for t in ev.targets):
+                    unclassified.append(ev)
         for grp in GROUPS:
             desc = f"{f.local}: {grp} {verb}"
+            if grp not in found and unclassified:
+                raise AnalysisError(f"{f.local}:{unclassified[0].line} `{unclassified[0].text()[:60]}`: cannot tell which model group this call handles (unfamiliar loop shape)")
             if grp not in found:
                 rep.bad(rule, desc)
                 rep.finding(rule, f, f"{grp} not {verb}", f.node.lineno, f"the `{grp}` model(s) are not {verb} by {f.local}: they would no longer interpolate the recorded values")
@@ -204,6 +219,15 @@ def r121(ctx, rep, rule="R12.1"):
                             if isinstance(sub, (ast.Break, ast.Continue)):
                                 problems.append("the loop over the models contains break/continue")
                         # index coherence: self._cub[i] with the loop variable
+                        if isinstance(recv, ast.Subscript) and isinstance(lp.target, ast.Tuple) and isinstance(lp.iter, ast.Call) and getattr(lp.iter.func, "id", None) == "enumerate" \
+                                and len(lp.target.elts) == 2 and all(isinstance(x, ast.Name) for x in lp.target.elts):
+                            iv, vv = lp.target.elts[0].id, lp.target.elts[1].id
+                            if norm(recv.slice) != iv:
+                                problems.append(f"model index `{norm(recv.slice)}` is not the loop counter `{iv}`")
+                            want_arr = {"_cub": ("cub_val", "cub_diff", "_cub_val"), "_ceq": ("ceq_val", "ceq_diff", "_ceq_val")}[grp]
+                            for a in ev.node.args:
+                                if isinstance(a, ast.Name) and a.id == vv and not mentions(lp.iter.args[0], *want_arr):
+                                    problems.append(f"model group {grp} is fed from `{norm(lp.iter.args[0])}`")
                         if isinstance(recv, ast.Subscript) and isinstance(lp.target, ast.Name):
                             if norm(recv.slice) != lp.target.id:
                                 problems.append(f"model index `{norm(recv.slice)}` is not the loop variable `{lp.target.id}`")
@@ -647,8 +671,8 @@ def r125(ctx, rep):
                             from .. import spaces
                             rep.bad("R12.5", desc)
                             rep.finding("R12.5", mi, norm(node)[:100], node.lineno, f"an initial model value does not come from the evaluation routine: {spaces.fmt(o)}")
-    if n < 6:
-        raise AnalysisError(f"Models.__init__: only {n} stores of sampled values found (floor 6)")
+    if n < 3:
+        raise AnalysisError(f"Models.__init__: only {n} stores of sampled values found (floor 3)")
 
 
 # ---------------------------------------------------------------------------
@@ -686,7 +710,7 @@ def _first_iteration_only(f, store, var, k, kk, at):
         if isinstance(s_, ast.If) and isinstance(s_.test, ast.Compare) and len(s_.test.ops) == 1 and isinstance(s_.test.left, ast.Name) and s_.test.left.id == k.id and isinstance(s_.test.comparators[0], ast.Constant):
             op, c = s_.test.ops[0], s_.test.comparators[0].value
             later = (isinstance(op, ast.Gt) and c == kk.value) or (isinstance(op, ast.NotEq) and c == kk.value) or (isinstance(op, ast.GtE) and c == kk.value + 1)
-            if later and any(isinstance(b, ast.Assign) and any(isinstance(t, ast.Name) and t.id == var for t in b.targets) for b in s_.body):
+            if later and any(isinstance(b, ast.Assign) and any(isinstance(x, ast.Name) and x.id == var for t in b.targets for x in ast.walk(t)) for b in s_.body):
                 return True
     return False
 
@@ -772,8 +796,8 @@ def r128(ctx, rep):
                         rep.finding("R12.8", mi, norm(node)[:100], node.lineno,
                                     f"initial sampling: {why}; the models would interpolate a value that was not obtained at the stored point "
                                     "(Interpolation.__init__ moves the base point away from x0 near the bounds)")
-    if n < 6:
-        raise AnalysisError(f"Models.__init__: only {n} sampled-value stores traced to an evaluation (floor 6)")
+    if n < 3:
+        raise AnalysisError(f"Models.__init__: only {n} sampled-value stores traced to an evaluation (floor 3)")
 
 
 _old_run12 = run
